@@ -2806,6 +2806,13 @@ def rule_incremented_digit_in_range(col, facts):
                 if op == "Ne" and (l == dig or r == dig) and (mentions_radix(l) or mentions_radix(r)):
                     ok = True
             key = f.short.replace(WF, "") if f.kind != "Closure" else f.closure_of.replace(WF, "")
+            if not ok:
+                # the digit's position may be the result of a search whose predicate holds the test
+                # (`digits[..count].iter().rposition(|&c| c < max_char)`): the closure is not read here
+                searched = [last_seg(c_[1]) for _d, x, p in path_conditions(f, bb) for c_ in expr_calls(x) if last_seg(c_[1]) in ("rposition", "position", "rfind", "find", "find_map", "rev")]
+                if searched and any(g.kind == "Closure" and g.closure_of == f.short and any(st[0] == "=" and st[2][0] == "bin" and st[2][1] in ("Lt", "Le", "Ne", "Gt", "Ge") for b_ in g.blocks for st in b_["s"]) for g in facts.all_fns()):
+                    col.assumed("not-applied", "GRD-digit:%s:digit+1" % key, "the incremented digit was located by `%s` with a comparing closure: whether that comparison is `below the largest digit` is not decided" % searched[0], f.loc(f.blocks[bb]["ts"]))
+                    continue
             col.check(R, "%s:digit+1" % key, ok,
                       "`%s` is turned into a digit character without having been found below the radix: the largest digit is incremented to a character that is not a digit (radix 3: `3`, radix 36: `[`)" % show(e)[:90], f.loc(f.blocks[bb]["ts"]))
     col.floor(R, "digit increments in the float writers", n, 1 if "radix" not in facts.config else 2)
